@@ -1,5 +1,6 @@
 """C10 - long-only sizing never budgets more than the cash-buffered equity."""
 import itertools
+import math
 from fractions import Fraction as F
 
 import numpy as np
@@ -58,10 +59,14 @@ def run_case(case):
     buf = case['buffer']
     if inv in ('buffer_low', 'buffer_high'):
         try:
-            q.DollarWeightedCashBufferedOrderSizer(b, 'p', dh, cash_buffer_percentage=buf)
+            if case.get('via_qts'):
+                q.QuantTradingSystem(q.StaticUniverse(sorted(weights)), b, 'p', dh, None, long_only=True,
+                                     cash_buffer_percentage=buf, submit_orders=False)
+            else:
+                q.DollarWeightedCashBufferedOrderSizer(b, 'p', dh, cash_buffer_percentage=buf)
         except ValueError:
-            return Result(['rejected_' + inv], nontrivial=True)
-        raise Violation('cash buffer %r was accepted' % buf)
+            return Result(['rejected_' + inv] + (['rejected_via_trading_system'] if case.get('via_qts') else []), nontrivial=True)
+        raise Violation('cash buffer %r was accepted%s' % (buf, ' by QuantTradingSystem' if case.get('via_qts') else ''))
     if buf == 'default':
         sizer = q.DollarWeightedCashBufferedOrderSizer(b, 'p', dh)
         buf = 0.05
@@ -246,7 +251,86 @@ def grid(tier):
                            'fee': [0.001, 0.005] if (ws[0] + ps[1]) % 2 else None}
 
 
+
+# ---------------------------------------------------------------------------------------------------------------
+# the sizer over a real CSV data source: an asset that has no bar yet is unpriced and must be refused
+
+def run_csv(case, long_only=True):
+    import datetime as D
+    from vlib import cal, market
+    from vlib.sut import clear_caches
+    from checks.c06_pit_data import lookup, observations
+    q = load()
+    clear_caches()
+    t = cal.ts6(case['t'])
+    syms = case['symbols']
+    with market.csv_dir(syms) as path:
+        ds = q.CSVDailyBarDataSource(path, q.Equity, adjust_prices=case['adjust'], csv_symbols=list(syms))
+        dh = q.BacktestDataHandler(None, data_sources=[ds])
+        b = q.SimulatedBroker(t, q.SimulatedExchange(t), dh, initial_funds=case['equity'],
+                              fee_model=kit.fee_model(case['fee']))
+        b.create_portfolio('p')
+        b.subscribe_funds_to_portfolio('p', case['equity'])
+        if long_only:
+            sizer = q.DollarWeightedCashBufferedOrderSizer(b, 'p', dh, cash_buffer_percentage=case['arg'])
+        else:
+            sizer = q.LongShortLeveragedOrderSizer(b, 'p', dh, gross_leverage=case['arg'])
+        weights = {'EQ:' + s: w for s, w in case['weights'].items()}
+        price = {'EQ:' + s: lookup(observations(rows, case['adjust']), t)[0] for s, rows in syms.items()}
+        unpriced = [a for a in weights if math.isnan(price[a])]
+        try:
+            out = sizer(t, dict(weights))
+        except ValueError:
+            if unpriced:
+                return Result(['rejected_unpriced_asset'], nontrivial=True)
+            raise Violation('sizing at %s raised although every asset is priced (%s)' % (t, price))
+        finally:
+            clear_caches()
+    if unpriced:
+        raise Violation('asset(s) %s have no bar at or before %s (first bars %s) yet the sizer returned %s' % (
+            unpriced, t, {s: market.first_date(r) for s, r in syms.items()}, out))
+    if set(out) != set(weights):
+        raise Violation('target keys %s differ from weight keys %s' % (sorted(out), sorted(weights)))
+    E = F(case['equity'])
+    f = kit.fee_rate(case['fee'])
+    total = sum(abs(out[a]['quantity']) * F(price[a]) for a in out)
+    bound = (1 - F(case['arg'])) * E if long_only else F(case['arg']) * E * (1 + f)
+    if total > bound * (1 + F(1, 10 ** 9)):
+        raise Violation('target costs %r at the point-in-time prices %s, more than %r' % (float(total), price, float(bound)))
+    return Result(['priced'], nontrivial=False)
+
+
+@st.composite
+def csv_cases(draw, long_only=True):
+    import datetime as D
+    from vlib import market
+    d0 = draw(st.dates(min_value=D.date(1996, 1, 1), max_value=D.date(2038, 1, 1)))
+    names = draw(market.symbol_names(2, 3))
+    seed = draw(st.integers(0, 2 ** 31))
+    late = draw(st.integers(1, len(names) - 1))
+    syms = {}
+    for i, s in enumerate(names):
+        off = 0 if i < late else draw(st.integers(3, 12))
+        syms[s] = market.build_rows(seed + i, d0 + D.timedelta(days=off), 25) or market.build_rows(seed, d0, 25)
+    first_late = max(market.first_date(r) for r in syms.values())
+    where = draw(st.sampled_from(['before', 'before', 'just_before', 'at_open', 'after']))
+    if where == 'before':
+        d = first_late - D.timedelta(days=draw(st.integers(1, 3)))
+        t = [d.year, d.month, d.day, 21, 0, 0]
+    elif where == 'just_before':
+        t = [first_late.year, first_late.month, first_late.day, 14, 29, 59]
+    elif where == 'at_open':
+        t = [first_late.year, first_late.month, first_late.day, 14, 30, 0]
+    else:
+        d = first_late + D.timedelta(days=draw(st.integers(1, 5)))
+        t = [d.year, d.month, d.day, 21, 0, 0]
+    w = {s: (draw(st.sampled_from([0.0, 0.5, 1.0, 0.25])) * (1 if long_only or draw(st.booleans()) else -1)) for s in names}
+    return {'symbols': syms, 't': t, 'weights': w, 'equity': draw(st.sampled_from([1e6, 1e4, 250000.0])),
+            'fee': draw(st.sampled_from([None, [0.001, 0.005]])), 'adjust': draw(st.booleans()),
+            'arg': draw(st.sampled_from([0.05, 0.0, 0.3])) if long_only else draw(st.sampled_from([1.0, 2.0, 0.5]))}
+
 PARTS = [
     Part('random', 'hyp', run_case, strategy=cases(), quick=15000, thorough=800000, quick_shards=8),
     Part('grid', 'sweep', run_case, sweep=grid, quick_shards=8, exhaustive=True),
+    Part('csv', 'hyp', run_csv, strategy=csv_cases(True), quick=300, thorough=24000, quick_shards=8),
 ]
